@@ -53,7 +53,15 @@ if not reverse and d1.returncode == 0:
 meta["demo_with_change"] = {"exit": d1.returncode, "passed_failed": passed(d1.stdout)}
 meta["demo_command"] = " ".join(dcmd)
 run(["patch", "-p1", "-R", "-s", "-i", os.path.join(src, "patch.diff")])
+fixed = os.path.join(src, "demo_fixed.diff")
+has_fixed = os.path.exists(fixed)
+if has_fixed:
+    # feature addition: the demonstration uses the new API, so "without the change" is the corrected version of the addition
+    pf = run(["patch", "-p1", "-s", "-i", fixed])
+    meta["fixed_variant_applies"] = pf.returncode == 0
 d2 = run(dcmd)
+if has_fixed:
+    run(["patch", "-p1", "-R", "-s", "-i", fixed])
 meta["demo_without_change"] = {"exit": d2.returncode, "passed_failed": passed(d2.stdout)}
 # checks against the changed tree
 run(["patch", "-p1", "-s", "-i", os.path.join(src, "patch.diff")])
@@ -71,6 +79,19 @@ for pr in sorted(PROPERTIES):
     if keys:
         caught[pr] = sorted(keys)
 meta["caught_by"] = caught
+if has_fixed:
+    # the corrected addition must be silent
+    run(["patch", "-p1", "-R", "-s", "-i", os.path.join(src, "patch.diff")])
+    run(["patch", "-p1", "-s", "-i", fixed])
+    shutil.rmtree(os.path.join(wd, "target"), ignore_errors=True)
+    alarms = {}
+    for pr in sorted(PROPERTIES):
+        rc, findings, stats = check(pr, "quick", repo=wd, quiet=True, evidence=False)
+        keys = [f.key for f in findings if (pr, f.key) not in known]
+        if keys:
+            alarms[pr] = sorted(keys)
+    meta["fixed_variant_alarms"] = alarms
+    shutil.copy(fixed, "/verif/seeded/_fixed_" + sid + ".diff")
 meta["caught_by_own_property"] = prop in caught
 meta["needs"] = open(os.path.join(src, "meta.txt")).read()
 meta["ran"] = ["cargo test --workspace --no-fail-fast --offline (with change)", " ".join(dcmd) + " (with / without change)", "./check <all 19> --repo <scratch> (quick)"]
@@ -92,7 +113,12 @@ meta["confirmed"] = valid
 os.makedirs(out, exist_ok=True)
 shutil.copy(os.path.join(src, "patch.diff"), out + "/patch.diff")
 shutil.copy(os.path.join(src, "demo.rs"), out + "/demo.rs")
+if has_fixed:
+    shutil.move("/verif/seeded/_fixed_" + sid + ".diff", out + "/demo_fixed.diff")
+    meta["demo_direction"] += " (without = with the corrected version of the added feature, demo_fixed.diff)"
 json.dump(meta, open(out + "/meta.json", "w"), indent=1)
 shutil.rmtree(tmp, ignore_errors=True)
 print(sid, "confirmed" if valid else "NOT CONFIRMED", "suite", meta["suite_with_change"], "demo", meta["demo_with_change"]["exit"], meta["demo_without_change"]["exit"])
 print("   caught by:", {k: v[:2] for k, v in caught.items()} or "NOTHING")
+if has_fixed:
+    print("   fixed variant alarms:", {k: v[:3] for k, v in meta["fixed_variant_alarms"].items()} or "none")
